@@ -16,6 +16,7 @@ type Clause struct {
 	Src   string
 	File  string
 	Line  int
+	Assumed bool // 'posits': assumed at call sites, not checked against the body (listed as assumption)
 }
 
 type LoopSpec struct {
@@ -46,6 +47,8 @@ type Contract struct {
 	Inline     bool // always inline at call sites
 	NoInline   bool // never inline: uncontracted havoc
 	AllowPanic bool // explicit panic() reachable is not an obligation
+	ResultInArg bool // 'result in args': a returned slice/pointer lies in a 'modifies object argK' object or in fresh memory
+	Wrapping   bool // signed + - * are two's-complement in this function (no int-overflow obligation)
 	Sets       []GhostSet
 	Params     []string // optional parameter names (for externals whose export data lost names)
 	Callbacks  map[string]bool   // function-typed parameters assumed not to modify memory the function observes
@@ -59,6 +62,7 @@ type ModClause struct {
 	Object  string
 	Younger string
 	Kinds   []string
+	Fields  []string // "T.f": exactly the field cells f of structs of (package-local or pkg.T) type T
 }
 
 type UFDecl struct {
@@ -103,6 +107,10 @@ func funcKey(pkgPath, name string) string {
 	name = strings.TrimSpace(name)
 	if strings.HasPrefix(name, "iface ") {
 		return "iface:" + strings.TrimSpace(name[6:])
+	}
+	if strings.HasPrefix(name, "field ") {
+		// the function stored in a func-typed struct field: "field T.f" (T of the current package)
+		return "field:" + pkgPath + "." + strings.TrimSpace(name[6:])
 	}
 	if strings.Contains(name, "/") || strings.HasPrefix(name, "(*"+pkgPath) {
 		return name // already fully qualified
@@ -260,6 +268,13 @@ func (db *SpecDB) LoadSpecFile(file, pkgPath string) error {
 				return fmt.Errorf("%s:%d: clause outside func", file, ln)
 			}
 			cur.Ensures = append(cur.Ensures, mk())
+		case "posits":
+			if cur == nil {
+				return fmt.Errorf("%s:%d: clause outside func", file, ln)
+			}
+			c := mk()
+			c.Assumed = true
+			cur.Ensures = append(cur.Ensures, c)
 		case "invariant":
 			if cur == nil || curLoop < 0 {
 				return fmt.Errorf("%s:%d: invariant outside loop", file, ln)
@@ -306,8 +321,23 @@ func (db *SpecDB) LoadSpecFile(file, pkgPath string) error {
 			} else {
 				cl := ModClause{}
 				r := rest
+				if strings.HasPrefix(r, "fields ") {
+					cl.Fields = strings.Fields(r[7:])
+					cur.Mods = append(cur.Mods, cl)
+					break
+				}
 				if i := strings.Index(r, "kinds "); i >= 0 {
-					cl.Kinds = strings.Fields(r[i+6:])
+					for _, k := range strings.Fields(r[i+6:]) {
+						// map heaps are named by the sanitized map type; "map:<type>" = domain and values
+						switch {
+						case strings.HasPrefix(k, "map:"):
+							cl.Kinds = append(cl.Kinds, "mapdom:"+sanitize(k[4:]), "mapval:"+sanitize(k[4:]))
+						case strings.HasPrefix(k, "mapdom:") || strings.HasPrefix(k, "mapval:"):
+							cl.Kinds = append(cl.Kinds, k[:7]+sanitize(k[7:]))
+						default:
+							cl.Kinds = append(cl.Kinds, k)
+						}
+					}
 					r = strings.TrimSpace(r[:i])
 				}
 				switch {
@@ -326,6 +356,12 @@ func (db *SpecDB) LoadSpecFile(file, pkgPath string) error {
 			cur.Trusted = true
 		case "inline":
 			cur.Inline = true
+		case "wrapping":
+			cur.Wrapping = true
+		case "result":
+			if rest == "in args" {
+				cur.ResultInArg = true
+			}
 		case "noinline":
 			cur.NoInline = true
 		case "allow":
